@@ -208,6 +208,11 @@ fn run_table<E: EndianParse, P: ParseAt + Show>(
                 o.write_str("]")?;
             }
             ("get", 2) => show_res(o, t.get(q[1].us()), |o, v| v.show(o))?,
+            ("walk", _) => {
+                let acts: Vec<usize> = q[1..].iter().map(|t| t.us()).collect();
+                let it: ParsingIterator<E, P> = ParsingIterator::new(e, c, d);
+                walk_iter(o, it, &acts, &|o, x: &P| x.show(o))?;
+            }
             ("nexts", 2) => {
                 let mut it: ParsingIterator<E, P> = ParsingIterator::new(e, c, d);
                 o.write_str("[")?;
